@@ -206,6 +206,14 @@ def search(ctx, boost=1, focus=()):
                  for _ in range(npk)]
         if k % 7 == 0:
             peaks.append((-3 * c, -3 * c))  # entirely outside
+        if k % 6 == 5:
+            # values over the whole range of an integer dtype (the crop is a copy: every value comes back exactly)
+            xdt = np.dtype(("uint64", "int64", "uint8", "int8", "uint32", "int16")[(k // 6) % 6])
+            info = np.iinfo(xdt)
+            cases.append({"frame": rng.integers(info.min, info.max, (fy, fx), dtype=xdt, endpoint=True), "c": c, "peaks": peaks,
+                          "dtype": xdt.name, "sparse": False})
+            ctx.count("full_range_" + xdt.name)
+            continue
         cases.append({"frame": rng.integers(1, 60000, (fy, fx)), "c": c, "peaks": peaks,
                       "dtype": dts[k % len(dts)], "sparse": k % 5 == 0})
     for params in cases:
